@@ -7,6 +7,10 @@ Two kinds of cases, driven against /repo and judged inside Coq (Geom/LayoutCheck
            numpy RNG).  The harness records the positions returned by check_and_fix_cis_trans (pre-scale) and the
            results of np.linalg.norm in the rescale loop through proxies of the names `check_and_fix_cis_trans` / `np`
            inside cgsmiles.graph_layout (no global patch).  Model: Geom/Scale.v float instance, bit for bit.
+           With `align` the call passes align_with: proxies of `rotate_to_axis` (inside cgsmiles.graph_layout) and
+           `rotate` (inside cgsmiles.linalg_functions) record the rows that went in and came out and cos/sin of the
+           angle; model Geom/Tail.v (generated step list and rotation row), alignment compared at 1e-12, the rescale
+           that follows bit for bit from the recorded aligned rows.
   rot    : rotate_subgraph(G, anchor, reference, target, points, angle) on random graphs/points with the
            nx.connected_components transcript (proxy of `nx` inside cgsmiles.graph_layout_utils); contract of the
            transcript and "nodes outside the component do not move" checked, every bond length preserved.
@@ -33,6 +37,8 @@ SALTS = ['{[#A][#B]}.{#A=[$]CC,#B=[$]C(=O)[O-].[Na+]}', '{[#A]}.{#A=CC(=O)[O-].[
 # edge `order` attributes: as produced by the source / none at all / some zero / mixed values
 ORDERS = ['asis', 'asis', 'none', 'zeros', 'mixed']
 BONDS = [1, 2, 0.5, 1.5, 2.37, 10, 1e-3, 100.0, 1.0]
+# align_with vectors (vespr_layout rotates the layout so that its longest axis points along this vector)
+ALIGNS = [[1, 0], [0, 1], [1, 1], [-1, 0], [0.3, -2.5], [1.0, 0.0], [0, -1]]
 
 
 class Delegate:
@@ -230,6 +236,12 @@ class C19(common.Prop):
                 dict(base, kind='layout', shape='chain', n=5, relabel='identity', db=1, orders='zeros'),
                 dict(base, kind='layout', shape='ring', n=6, relabel='permute', db=1.5, orders='none'),
                 dict(base, kind='layout', shape='fused', n=6, relabel='identity', db=1, orders='mixed'),
+                # align_with given: rotate_to_axis runs between the cis/trans correction and the rescale
+                dict(base, kind='layout', shape='chain', n=6, relabel='identity', db=1, align=[1, 0]),
+                dict(base, kind='layout', shape='fused', n=6, relabel='strings', db=2.37, align=[0, 1]),
+                dict(base, kind='layout', shape='molecule', n=0, s=EZ[1], relabel='permute', db=1.5, align=[1, 1]),
+                dict(base, kind='layout', shape='molecule', n=0, s=SALTS[0], relabel='reversed', db=0.5, align=[0.3, -2.5]),
+                dict(base, kind='layout', shape='ring', n=5, relabel='offset', db=2, align=[-1, 0], edit={'op': 'add_node', 'pick': 1}),
                 # histories on ONE graph object: layout, edit the graph, layout again (the second result is judged)
                 dict(base, kind='layout', shape='chain', n=5, relabel='identity', db=1, edit={'op': 'add_edge', 'pick': 1}),
                 dict(base, kind='layout', shape='ring', n=6, relabel='strings', db=2, edit={'op': 'remove_node', 'pick': 2}),
@@ -264,6 +276,9 @@ class C19(common.Prop):
                 if rng.random() < 0.3:
                     c['edit'] = {'op': rng.choice(EDITS), 'pick': rng.randrange(1000)}
                 c['db'] = rng.choice(BONDS) if rng.random() < 0.8 else round(rng.uniform(0.01, 50), 3)
+                if rng.random() < 0.35:
+                    c['align'] = rng.choice(ALIGNS) if rng.random() < 0.7 else \
+                        [round(rng.uniform(-3, 3), 3), round(rng.uniform(-3, 3), 3)]
             elif rng.random() < 0.5:
                 c['kind'] = 'rot'
                 c['pick'] = rng.randrange(1000)
@@ -373,7 +388,8 @@ class C19(common.Prop):
         except Exception as e:
             ids = {x: i for i, x in enumerate(G.nodes)}
             return {'nodes': list(ids.values()), 'edges': [[ids[u], ids[v]] for u, v in G.edges], 'db': float(case['db']),
-                    'exc': 2, 'exc_name': 'first layout:' + type(e).__name__, 'pre': [], 'lens': [], 'post': [], 'zero': False}
+                    'exc': 2, 'exc_name': 'first layout:' + type(e).__name__, 'pre': [], 'al': None, 'mid': [], 'lens': [],
+                    'post': [], 'zero': False}
         finally:
             np.random.set_state(state)
         try:
@@ -394,8 +410,10 @@ class C19(common.Prop):
 
     def _run_layout(self, case, G, ids):
         import cgsmiles.graph_layout as gl
-        rec = {'after': False, 'lens': []}
-        real_np, real_fix = gl.np, gl.check_and_fix_cis_trans
+        import cgsmiles.linalg_functions as lf
+        rec = {'after': False, 'lens': [], 'r2a': [], 'rot': []}
+        real_np, real_fix, real_r2a, real_rot = gl.np, gl.check_and_fix_cis_trans, gl.rotate_to_axis, lf.rotate
+        align = case.get('align')
 
         def norm(x, *a, **k):
             r = real_np.linalg.norm(x, *a, **k)
@@ -408,20 +426,35 @@ class C19(common.Prop):
             rec['pre'] = [[k, [float(v[0]), float(v[1])]] for k, v in r.items()]
             rec['after'] = True
             return r
+
+        def r2a(positions, align_with):
+            r = real_r2a(positions, align_with)
+            rec['r2a'].append((np.array(positions, dtype=float).tolist(), np.array(r, dtype=float).tolist()))
+            return r
+
+        def rot(positions, angle, *a, **k):
+            if rec['after']:
+                rec['rot'].append((float(np.cos(angle)), float(np.sin(angle)), len(a) + len(k)))
+            return real_rot(positions, angle, *a, **k)
         gl.np = Delegate(real_np, linalg=Delegate(real_np.linalg, norm=norm))
         gl.check_and_fix_cis_trans = fix
+        gl.rotate_to_axis = r2a
+        lf.rotate = rot
         out = {'nodes': [ids[x] for x in G.nodes], 'edges': [[ids[u], ids[v]] for u, v in G.edges], 'db': float(case['db']),
-               'exc': 0, 'pre': [], 'lens': [], 'post': [],
+               'exc': 0, 'pre': [], 'al': None, 'mid': [], 'lens': [], 'post': [],
                'zero': any(d.get('order', 1) == 0 for _, _, d in G.edges(data=True))}
         state = np.random.get_state()
         try:
             np.random.seed(int(case['npseed']))
-            pos = gl.vespr_layout(G, default_bond=case['db'])
+            if align is None:
+                pos = gl.vespr_layout(G, default_bond=case['db'])
+            else:
+                pos = gl.vespr_layout(G, default_bond=case['db'], align_with=np.array(align, dtype=float))
         except Exception as e:
             out['exc'], out['exc_name'] = 2, type(e).__name__
             return out
         finally:
-            gl.np, gl.check_and_fix_cis_trans = real_np, real_fix
+            gl.np, gl.check_and_fix_cis_trans, gl.rotate_to_axis, lf.rotate = real_np, real_fix, real_r2a, real_rot
             np.random.set_state(state)
         ok = isinstance(pos, dict) and all(k in ids for k in pos) and \
             all(isinstance(v, np.ndarray) and v.shape == (2,) for v in pos.values())
@@ -430,6 +463,19 @@ class C19(common.Prop):
             return out
         out['pre'] = [[ids[k], p] for k, p in rec.get('pre', [])]
         out['lens'] = rec['lens']
+        nan = float('nan')
+        if align is None and not rec['r2a'] and not rec['rot']:
+            out['mid'] = out['pre']
+        elif align is not None and len(rec['r2a']) == 1 and len(rec['rot']) == 1 and rec['rot'][0][2] == 0 \
+                and rec['r2a'][0][0] == [p for _, p in out['pre']] and len(rec['r2a'][0][1]) == len(out['pre']):
+            # one rotate_to_axis call on the values of the dict in dict order -> one rotate(positions, angle) call about
+            # the default origin; row idx of the result belongs to the idx-th key
+            out['al'] = [rec['rot'][0][0], rec['rot'][0][1]]
+            out['mid'] = [[k, [float(r[0]), float(r[1])]] for (k, _), r in zip(out['pre'], rec['r2a'][0][1])]
+        else:
+            # the alignment did not happen the way the model says (no call / several calls / other argument)
+            out['al'] = [nan, nan]
+            out['mid'] = out['pre']
         out['post'] = [[ids[k], [float(v[0]), float(v[1])]] for k, v in pos.items()]
         return out
 
@@ -511,7 +557,8 @@ class C19(common.Prop):
             return 'skipped:' + impl['skip']
         z = ':zero-order-edge' if impl.get('zero') else ''
         h = ':history-' + case['edit']['op'] if case.get('edit') else ''
-        return '%s:%s:%s:%s%s%s' % (case['kind'], case['shape'], case['relabel'], case.get('orders', 'asis'), z, h)
+        a = ':align' if case.get('align') is not None else ''
+        return '%s:%s:%s:%s%s%s%s' % (case['kind'], case['shape'], case['relabel'], case.get('orders', 'asis'), z, h, a)
 
     def coq_case(self, case, impl):
         if 'skip' in impl:
@@ -520,9 +567,10 @@ class C19(common.Prop):
         ed = lit.lst([lit.pair(lit.z(u), lit.z(v)) for u, v in impl['edges']])
         pl = lambda t: lit.lst([lit.pair(lit.z(k), v2(p)) for k, p in t])
         if case['kind'] == 'layout':
-            return '(CLayout %s %s %s %s %s %s %s)' % (zl(impl['nodes']), ed, fhex(impl['db']), lit.nat(impl['exc']),
-                                                      pl(impl['pre']), lit.lst([fhex(x) for x in impl['lens']]),
-                                                      pl(impl['post']))
+            al = 'None' if impl.get('al') is None else '(Some (%s, %s))' % (fhex(impl['al'][0]), fhex(impl['al'][1]))
+            return '(CLayout %s %s %s %s %s %s %s %s %s)' % (zl(impl['nodes']), ed, fhex(impl['db']), lit.nat(impl['exc']),
+                                                            pl(impl['pre']), al, pl(impl.get('mid', [])),
+                                                            lit.lst([fhex(x) for x in impl['lens']]), pl(impl['post']))
         if case['kind'] == 'fix':
             ty = {0: 'EzTrans', 1: 'EzCis', 2: 'EzOther'}
             its = lit.lst(['{| ez1 := %s; ez2 := %s; ez3 := %s; ez4 := %s; ezty := %s; lt14 := %s |}'
